@@ -137,6 +137,7 @@ func scenarioC09x(c *hlib.RunCtx) *hlib.Violation {
 	suspended := false
 	seenCalls := 0
 	frozen := map[string]map[string]uint64{} // old file -> values when a rotation completed
+	slackAt := map[string]map[string]uint64{} // frozen file -> name -> amount in flight when that file was frozen
 	inflightAt := map[string]uint64{}        // name -> amount in flight when the latest rotation completed
 	rotations := 0
 	timerDone := map[*simrt.Task]bool{}
@@ -172,6 +173,12 @@ func scenarioC09x(c *hlib.RunCtx) *hlib.Violation {
 						m[n] = val
 					}
 					frozen[v.path] = m
+					// increments in flight when this file was frozen may still land in it
+					sl := map[string]uint64{}
+					for n := range w.begun {
+						sl[n] = w.begun[n] - w.added[n]
+					}
+					slackAt[v.path] = sl
 					rotations++
 					s.Probe("rotation-completed")
 				}
@@ -189,8 +196,8 @@ func scenarioC09x(c *hlib.RunCtx) *hlib.Violation {
 				continue
 			}
 			for n, val := range v.dec.Counts {
-				if val > m[n]+inflightAt[n] {
-					w.fail("old-file-written", "after rotation completed, %s counter %q went from %d to %d (in flight at rotation: %d)", filepath.Base(path), n, m[n], val, inflightAt[n])
+				if val > m[n]+slackAt[path][n] {
+					w.fail("old-file-written", "after rotation completed, %s counter %q went from %d to %d (in flight at rotation: %d)", filepath.Base(path), n, m[n], val, slackAt[path][n])
 					return
 				}
 			}
@@ -314,8 +321,16 @@ func scenarioC09x(c *hlib.RunCtx) *hlib.Violation {
 				}
 			}
 		}
-		s.Advance(2 * time.Minute)
+		// An hour passes (any re-arm delay an implementation may have is over) and
+		// the process counts once more (an implementation may rotate on its next
+		// increment rather than on a timer): after that it records into a file
+		// whose span covers the present.
+		s.Advance(time.Hour)
 		w.finishRun(100000)
+		if w.viol == nil && len(p.counters) > 0 && !p.p.Dead() {
+			s.Spawn(p.p, "one-more", func() { w.add(p, p.counters[0], 1) })
+			w.finishRun(100000)
+		}
 	}
 	c.Sample = map[string]any{"start": start.Format(time.RFC3339Nano), "weekends_kind": wkKind, "weekday": wd, "phases": phases, "jumps": jumps, "files_created": len(created), "rotations": rotations}
 	if w.viol != nil {
@@ -401,7 +416,7 @@ func scenarioC09x(c *hlib.RunCtx) *hlib.Violation {
 					w.fail("rotation-after-suspend", "the machine was suspended and resumed at or after the recorded end: the clock reads %s, the process still records into %s (%s .. %s) and will do so for another %s of waking time, because the rotation timer runs on the monotonic clock",
 						now.Format(time.RFC3339Nano), filepath.Base(name), d.Meta["TimeBegin"], d.Meta["TimeEnd"], at.Sub(now))
 				} else if now.Before(b) || !now.Before(e) {
-					w.fail("rotation-liveness", "clock reads %s and all timers have fired, but the process still records into %s (%s .. %s)", now.Format(time.RFC3339Nano), filepath.Base(name), d.Meta["TimeBegin"], d.Meta["TimeEnd"])
+					w.fail("rotation-liveness", "clock reads %s, an hour has passed since the last jump, all due timers have fired and the process has counted once more, but it still records into %s (%s .. %s)", now.Format(time.RFC3339Nano), filepath.Base(name), d.Meta["TimeBegin"], d.Meta["TimeEnd"])
 				}
 			}
 		}
